@@ -91,7 +91,11 @@ class Gen:
 
     def templ(self, k):
         r = self.r
-        return dict(inst=r.choice([1, 1, 0]), vars=self.vars(), chans=self.chans(),
+        inst = r.choice([1, 1, 0])
+        # how the template reaches (or misses) the system line: 1 listed as it is; 2 listed with a free parameter (a process set); 3 a partial instantiation that leaves a
+        # parameter free, listed; 4 a full instantiation, listed; 5 a chain of two instantiations, listed; 0 not mentioned; 6 instantiated but not listed (no process)
+        style = r.choice([1, 1, 2, 3, 4, 5]) if inst else r.choice([0, 0, 6])
+        return dict(inst=inst, style=style, vars=self.vars(), chans=self.chans(),
                     invs=[self.guard(r.choice([0, 1, 2]), inv=True) for _ in range(r.randrange(0, 3))],
                     edges=[dict(guard=self.guard(r.choice([0, 1, 2, 3])) if r.random() < 0.8 else None, upds=self.upds()) for _ in range(r.randrange(0, 4))])
 
@@ -183,12 +187,24 @@ def render(d, rng):
             if e['upds']:
                 labs += '<label kind="assignment">%s</label>' % esc(', '.join(u_txt(u, rng) for u in e['upds']))
             eds.append('<transition><source ref="id%d_0"/><target ref="id%d_0"/>%s</transition>' % (k, k, labs))
-        tx.append('<template><name>T%d</name><declaration>%s</declaration>%s<init ref="id%d_0"/>%s</template>' % (k, esc(decls(t['vars'], t['chans'], rng, 't%d' % k)), ''.join(locs), k, ''.join(eds)))
-    inst = ['T%d' % k for k, t in enumerate(d['templs']) if t['inst']]
-    if not inst:
+        params = {2: 'const int[0,2] pid%d' % k}.get(t.get('style', 1), 'const int[0,2] pid%d, int pv%d' % (k, k) if t.get('style', 1) in (3, 4, 5, 6) else '')
+        tx.append('<template><name>T%d</name>%s<declaration>%s</declaration>%s<init ref="id%d_0"/>%s</template>' % (k, '<parameter>%s</parameter>' % params if params else '',
+                  esc(decls(t['vars'], t['chans'], rng, 't%d' % k)), ''.join(locs), k, ''.join(eds)))
+    if not any(t['inst'] for t in d['templs']):
         d['templs'][0]['inst'] = 1
-        inst = ['T0']
-    sysl = 'system ' + (' < '.join(inst) if d['prio'] and len(inst) > 1 else ', '.join(inst)) + ';'
+        if d['templs'][0].get('style', 1) in (0, 6):
+            d['templs'][0]['style'] = 4 if d['templs'][0].get('style') == 6 else 1
+    inst, insts = [], ''
+    for k, t in enumerate(d['templs']):
+        st = t.get('style', 1)
+        if st in (1, 2): name = 'T%d' % k
+        elif st == 3: name = 'Q%d' % k; insts += 'Q%d(const int[0,1] j%d) = T%d(j%d, 7);\n' % (k, k, k, k)
+        elif st == 4: name = 'P%d' % k; insts += 'P%d = T%d(1, 7);\n' % (k, k)
+        elif st == 5: name = 'P%d' % k; insts += 'Q%d(const int[0,1] j%d) = T%d(j%d, 7);\nP%d = Q%d(1);\n' % (k, k, k, k, k, k)
+        elif st == 6: name = None; insts += 'P%d = T%d(1, 7);\n' % (k, k)
+        else: name = None
+        if t['inst'] and name: inst.append(name)
+    sysl = insts + 'system ' + (' < '.join(inst) if d['prio'] and len(inst) > 1 else ', '.join(inst)) + ';'
     if d['prio'] and len(inst) < 2:
         d['prio'] = 0
     return '<?xml version="1.0" encoding="utf-8"?>\n<nta><declaration>%s</declaration>%s<system>%s</system></nta>' % (esc(glob), ''.join(tx), esc(sysl))
